@@ -67,6 +67,136 @@ fn fmt_clause_vals(clauses: &Option<Vec<BddPartialValuation>>, n: usize) -> Stri
     }
 }
 
+
+// ------------------------------------------------------------------------------------------------
+// Iterator protocol: `next()` j times, then ONE provided/adaptor method, on every iterator type.
+
+/// what a kind of iterator supports beyond `Iterator`
+struct ProtoOps<I, T> {
+    fmt: Box<dyn Fn(&T) -> String>,
+    min: Option<fn(I) -> Option<T>>,
+    max: Option<fn(I) -> Option<T>>,
+    clone: Option<fn(&I) -> I>,
+    back: Option<fn(I) -> Bdd>,
+}
+fn opt_item<T>(x: Option<T>, f: &dyn Fn(&T) -> String) -> String {
+    match x { Some(v) => format!("some:{}", f(&v)), None => s("none") }
+}
+/// observed: all (fresh collect), result of the method, remaining items afterwards (if the iterator
+/// survives the method), three further `next()` after exhaustion (`N` = None), the Bdd given back (owned kinds)
+fn proto_case<I: Iterator<Item = T>, T>(mk: &dyn Fn() -> I, j: usize, method: &str, k: usize, ops: &ProtoOps<I, T>) -> Vec<String> {
+    let f = &ops.fmt;
+    let all = catch(|| mk().collect::<Vec<T>>());
+    let all_s = match &all { Some(v) => seq(v.iter().map(|x| f(x)).collect()), None => s("panic") };
+    let r = catch(|| {
+        let mut it = mk();
+        for _ in 0..j { it.next(); }
+        let (res, rem): (String, Option<I>) = match method {
+            "count" => (it.count().to_string(), None),
+            "last" => (opt_item(it.last(), f), None),
+            "nth" => { let x = it.nth(k); (opt_item(x, f), Some(it)) }
+            "size_hint" => {
+                let (lo, hi) = it.size_hint();
+                (format!("{}/{}", lo, hi.map(|h| h.to_string()).unwrap_or(s("-"))), Some(it))
+            }
+            "collect" => (seq(it.collect::<Vec<T>>().iter().map(|x| f(x)).collect()), None),
+            "take" => { let v: Vec<T> = it.by_ref().take(k).collect(); (seq(v.iter().map(|x| f(x)).collect()), Some(it)) }
+            "fold" => (seq(it.fold(Vec::new(), |mut acc, x| { acc.push(f(&x)); acc })), None),
+            "min" => match ops.min { Some(m) => (opt_item(m(it), f), None), None => (s("n/a"), None) },
+            "max" => match ops.max { Some(m) => (opt_item(m(it), f), None), None => (s("n/a"), None) },
+            "clone" => match ops.clone {
+                Some(c) => {
+                    let it2 = c(&it);
+                    let a: Vec<String> = it.map(|x| f(&x)).collect();
+                    let b: Vec<String> = it2.map(|x| f(&x)).collect();
+                    (format!("{}/{}", seq(a), seq(b)), None)
+                }
+                None => (s("n/a"), None),
+            },
+            "skip" => (seq(it.skip(k).map(|x| f(&x)).collect()), None),
+            "step_by" => (seq(it.step_by(k).map(|x| f(&x)).collect()), None),
+            "next" => (s("-"), Some(it)),
+            _ => panic!("unknown method {}", method),
+        };
+        match rem {
+            Some(mut it) => {
+                let mut rest = vec![];
+                while let Some(x) = it.next() { rest.push(f(&x)); }
+                let fused: String = (0..3).map(|_| if it.next().is_none() { 'N' } else { 'S' }).collect();
+                let back = match ops.back { Some(b) => fmt_bdd(&b(it)), None => s("-") };
+                vec![res, seq(rest), fused, back]
+            }
+            None => vec![res, s("-"), s("-"), s("-")],
+        }
+    });
+    let mut o = vec![all_s];
+    o.extend(r.unwrap_or(vec![s("panic"), s("panic"), s("panic"), s("panic")]));
+    o
+}
+fn val_ops<I: Iterator<Item = BddValuation>>(clone: Option<fn(&I) -> I>, back: Option<fn(I) -> Bdd>) -> ProtoOps<I, BddValuation> {
+    ProtoOps { fmt: Box::new(|v: &BddValuation| fmt_valuation(v)), min: Some(|it: I| it.min()), max: Some(|it: I| it.max()), clone, back }
+}
+fn clause_ops<I: Iterator<Item = BddPartialValuation>>(n: usize, back: Option<fn(I) -> Bdd>) -> ProtoOps<I, BddPartialValuation> {
+    ProtoOps { fmt: Box::new(move |c: &BddPartialValuation| fmt_partial(c, n)), min: None, max: None, clone: None, back }
+}
+/// kinds: pc sat_clauses, pv sat_valuations, oc into_sat_clauses, ov into_sat_valuations (source = Bdd);
+/// cv ValuationsOfClauseIterator::new (source = `clause@num_vars`), uv new_unconstrained, bv
+/// BddValuationIterator::new (source = num_vars), ev empty (source `~`)
+fn run_proto(kind: &str, src: &str, j: usize, method: &str, k: usize) -> Vec<String> {
+    match kind {
+        "pc" => { let b = Bdd::from_string(src); let n = b.num_vars() as usize;
+                  proto_case(&|| b.sat_clauses(), j, method, k, &clause_ops(n, None)) }
+        "pv" => { let b = Bdd::from_string(src);
+                  proto_case(&|| b.sat_valuations(), j, method, k, &val_ops(None, None)) }
+        "oc" => { let b = Bdd::from_string(src); let n = b.num_vars() as usize;
+                  proto_case(&|| b.clone().into_sat_clauses(), j, method, k, &clause_ops(n, Some(|it: OwnedBddPathIterator| Bdd::from(it)))) }
+        "ov" => { let b = Bdd::from_string(src);
+                  proto_case(&|| b.clone().into_sat_valuations(), j, method, k, &val_ops(None, Some(|it: OwnedBddSatisfyingValuations| Bdd::from(it)))) }
+        "cv" => { let (c, n) = src.split_once('@').unwrap(); let clause = parse_partial(c); let n: u16 = n.parse().unwrap();
+                  proto_case(&|| ValuationsOfClauseIterator::new(clause.clone(), n), j, method, k, &val_ops(Some(|it: &ValuationsOfClauseIterator| it.clone()), None)) }
+        "uv" => { let n: u16 = src.parse().unwrap();
+                  proto_case(&|| ValuationsOfClauseIterator::new_unconstrained(n), j, method, k, &val_ops(Some(|it: &ValuationsOfClauseIterator| it.clone()), None)) }
+        "bv" => { let n: u16 = src.parse().unwrap();
+                  proto_case(&|| BddValuationIterator::new(n), j, method, k, &val_ops(None, None)) }
+        "ev" => proto_case(&|| ValuationsOfClauseIterator::empty(), j, method, k, &val_ops(Some(|it: &ValuationsOfClauseIterator| it.clone()), None)),
+        _ => panic!("unknown iterator kind {}", kind),
+    }
+}
+/// number of items of a fresh iterator (None if it panics)
+fn proto_len(kind: &str, src: &str) -> Option<usize> {
+    let o = run_proto(kind, src, 0, "count", 0);
+    o[1].parse().ok()
+}
+const PROTO_METHODS: [(&str, usize); 16] = [("count", 0), ("last", 0), ("nth", 0), ("nth", 1), ("nth", usize::MAX), ("size_hint", 0),
+    ("collect", 0), ("take", 1), ("take", 2), ("fold", 0), ("min", 0), ("max", 0), ("clone", 0), ("skip", 1), ("step_by", 2), ("next", 0)];
+fn proto_applicable(kind: &str, method: &str) -> bool {
+    match method { "min" | "max" => kind != "pc" && kind != "oc", "clone" => kind == "cv" || kind == "uv" || kind == "ev", _ => true }
+}
+fn proto_splits(n: usize) -> Vec<usize> {
+    if n <= 4 { (0..=n + 1).collect() } else { vec![0, 1, 2, n - 1, n, n + 1] }
+}
+/// every split point x every method for one iterator
+fn proto_all(kind: &str, src: &str, out: &mut Out) {
+    let Some(n) = proto_len(kind, src) else { return };
+    for j in proto_splits(n) {
+        for (m, k) in PROTO_METHODS {
+            if !proto_applicable(kind, m) { continue; }
+            let k = if k == usize::MAX { n } else { k };
+            run("C08.proto", &[s(kind), s(src), j.to_string(), s(m), k.to_string()], out);
+        }
+    }
+}
+/// `count` random (split point, method) pairs for one iterator
+fn proto_some(kind: &str, src: &str, count: usize, rng: &mut Rng64, out: &mut Out) {
+    let Some(n) = proto_len(kind, src) else { return };
+    for _ in 0..count {
+        let j = *rng.pick(&proto_splits(n));
+        let (m, k) = loop { let (m, k) = *rng.pick(&PROTO_METHODS); if proto_applicable(kind, m) { break (m, k); } };
+        let k = if k == usize::MAX { n } else { k };
+        run("C08.proto", &[s(kind), s(src), j.to_string(), s(m), k.to_string()], out);
+    }
+}
+
 /// Executes one case from its textual inputs and writes the observation.
 pub fn run(key: &str, a: &[String], out: &mut Out) {
     out.begin(key, a);
@@ -140,6 +270,22 @@ pub fn run(key: &str, a: &[String], out: &mut Out) {
             let e = catch(|| ValuationsOfClauseIterator::empty().collect::<Vec<_>>());
             out.case(key, a, &[fmt_vals(&u), fmt_vals(&d), fmt_vals(&e)]);
         }
+        "C08.proto" => {
+            // kind source j method k => all result rest fused back   (see `proto_case`)
+            let o = run_proto(&a[0], &a[1], a[2].parse().unwrap(), &a[3], a[4].parse().unwrap());
+            out.case(key, a, &o);
+        }
+        "C08.card" => {
+            // B j => exact_cardinality, sat_valuations() after j next() .count(), exact_clause_cardinality,
+            //        sat_clauses() after j next() .count()
+            let b = Bdd::from_string(&a[0]);
+            let j: usize = a[1].parse().unwrap();
+            let ec = catch(|| b.exact_cardinality().to_string()).unwrap_or(s("panic"));
+            let ecc = catch(|| b.exact_clause_cardinality().to_string()).unwrap_or(s("panic"));
+            let cv = catch(|| { let mut it = b.sat_valuations(); for _ in 0..j { it.next(); } it.count().to_string() }).unwrap_or(s("panic"));
+            let cc = catch(|| { let mut it = b.sat_clauses(); for _ in 0..j { it.next(); } it.count().to_string() }).unwrap_or(s("panic"));
+            out.case(key, a, &[ec, cv, ecc, cc]);
+        }
         _ => panic!("unknown key {}", key),
     }
 }
@@ -184,6 +330,14 @@ fn gap_bdd(rng: &mut Rng64) -> Vec<(usize, usize, usize)> {
     nodes
 }
 
+/// iterator-protocol and cardinality cross-check cases for one (canonical) diagram: a few random ones
+fn proto_kinds(b: &str, rng: &mut Rng64, out: &mut Out) {
+    let kind = *rng.pick(&["pc", "pv", "oc", "ov"]);
+    proto_some(kind, b, 3, rng, out);
+    let j = *rng.pick(&[0usize, 0, 1, 2, 3, 7, 100000]);
+    run("C08.card", &[s(b), j.to_string()], out);
+}
+
 fn all_kinds(b: &str, rng: &mut Rng64, out: &mut Out) {
     run("C08.vals", &[s(b)], out);
     run("C08.clauses", &[s(b)], out);
@@ -201,6 +355,37 @@ pub fn gen(tier: Tier, rng: &mut Rng64, out: &mut Out) {
             run("C08.vals", &[b.clone()], out);
             run("C08.clauses", &[b.clone()], out);
             run("C08.dnfvals", &[b.clone()], out);
+        }
+    }
+    // --- iterator protocol, exhaustively (every split point x every method) on every iterator type:
+    //     constants, all functions over <= 2 variables, a sample (thorough: all) over 3 variables,
+    //     all clauses over <= 3 positions, unconstrained/deprecated/empty iterators
+    for n in [0usize, 1, 3] {
+        for b in [fmt_triples(&[(n, 0, 0)]), fmt_triples(&[(n, 0, 0), (n, 1, 1)])] {
+            for kind in ["pc", "pv", "oc", "ov"] { proto_all(kind, &b, out); }
+            for j in [0usize, 1, 100000] { run("C08.card", &[b.clone(), j.to_string()], out); }
+        }
+    }
+    for n in 1..=2usize {
+        for t in 0..(1u64 << (1u64 << n)) {
+            let b = fmt_bdd(&bdd_of_tt(n, &tt_from_index(n, t)));
+            for kind in ["pc", "pv", "oc", "ov"] { proto_all(kind, &b, out); }
+            for j in 0..=5usize { run("C08.card", &[b.clone(), j.to_string()], out); }
+        }
+    }
+    for n in 0..=3u16 { proto_all("uv", &n.to_string(), out); proto_all("bv", &n.to_string(), out); }
+    proto_all("ev", "~", out);
+    for m in 0..=3usize {
+        for code in 0..3usize.pow(m as u32) {
+            let mut c = code;
+            let text: String = (0..m).map(|_| { let d = c % 3; c /= 3; ['0', '1', '-'][d] }).collect();
+            proto_all("cv", &format!("{}@{}", if text.is_empty() { s("~") } else { text }, m), out);
+        }
+    }
+    for t in 0..256u64 {
+        if thorough || rng.chance(1, 8) {
+            let b = fmt_bdd(&bdd_of_tt(3, &tt_from_index(3, t)));
+            for kind in ["pc", "pv", "oc", "ov"] { proto_all(kind, &b, out); }
         }
     }
     // --- clause iterators: all clauses over m <= 4 positions, num_vars 0..=4 (also clauses that are
@@ -254,23 +439,26 @@ pub fn gen(tier: Tier, rng: &mut Rng64, out: &mut Out) {
         for t in 0..(1u64 << (1u64 << n)) {
             let b = fmt_bdd(&bdd_of_tt(n, &tt_from_index(n, t)));
             all_kinds(&b, rng, out);
+            proto_kinds(&b, rng, out);
         }
     }
     if thorough {
-        for t in 0..65536u64 { let b = fmt_bdd(&bdd_of_tt(4, &tt_from_index(4, t))); all_kinds(&b, rng, out); }
+        for t in 0..65536u64 { let b = fmt_bdd(&bdd_of_tt(4, &tt_from_index(4, t))); all_kinds(&b, rng, out); proto_kinds(&b, rng, out); }
     } else {
-        for _ in 0..1500 { let b = fmt_bdd(&bdd_of_tt(4, &tt_from_index(4, rng.below(65536)))); all_kinds(&b, rng, out); }
+        for _ in 0..1500 { let b = fmt_bdd(&bdd_of_tt(4, &tt_from_index(4, rng.below(65536)))); all_kinds(&b, rng, out); proto_kinds(&b, rng, out); }
     }
     // --- random functions over 5..=8 variables (shared sub-diagrams, skipped levels)
     for _ in 0..(if thorough { 60000 } else { 1500 }) {
         let n = 5 + rng.below(4) as usize;
         let b = fmt_bdd(&random_bdd(rng, n));
         all_kinds(&b, rng, out);
+        proto_kinds(&b, rng, out);
     }
     // --- few-node diagrams over 10..=40 variables with level gaps, <= 2^12 satisfying valuations
     for _ in 0..(if thorough { 5000 } else { 120 }) {
         let b = fmt_triples(&gap_bdd(rng));
         all_kinds(&b, rng, out);
+        proto_kinds(&b, rng, out);
     }
     // --- valid but non-canonical diagrams (duplicated nodes, garbage, redundant test, renumbering);
     //     a redundant test makes the path iterator panic by design ("The BDD is not canonical.")
